@@ -124,13 +124,17 @@ func report(run *checkRun, verif string, verbose, writeEv bool) int {
 			continue
 		}
 		found := false
+		anyFails := false
 		for _, o := range run.obls {
 			if o.Name == k.Obligation || strings.HasPrefix(o.Name, k.Obligation+"~") {
 				found = true
-				if o.ok() {
-					fmt.Printf("NOTE: known finding %s no longer reproduces (obligation discharged)\n", k.Obligation)
+				if !o.ok() {
+					anyFails = true
 				}
 			}
+		}
+		if found && !anyFails {
+			fmt.Printf("NOTE: known finding %s no longer reproduces (obligation discharged)\n", k.Obligation)
 		}
 		if !found {
 			fmt.Printf("NOTE: known finding %s names an obligation that is no longer generated\n", k.Obligation)
